@@ -5,3 +5,9 @@ claim("C07",
       "Every index, slice, integer division, unchecked type assertion, allocation size and explicit panic in the non-test code of gbn and mailbox is enumerated from the SSA of the current tree and proved safe (dominating length guards, interval analysis, field invariants proved at every store and call site, the window-range invariant base/top/seq < s) or matched against a table of sites relay data cannot reach. This decides the 'never panics on index/divide/assert' and 'window bookkeeping stays in range' clauses for all byte strings at once, which no finite set of inputs can; it is a static necessary-and-sufficient argument for those operation kinds, not for nil dereferences or panics inside dependencies.",
       "Not decided: nil-pointer dereferences, panics inside dependencies (protojson, websocket, btcec, regexp), resource exhaustion. Authenticated plaintext is treated as peer-chosen, not relay-chosen.",
       "DESIGN.md §4 C07")
+
+claim("C19",
+      "writer/reader wire-layout extraction from SSA (path enumeration of the serializers, dominance facts of the parser) and field-by-field agreement check",
+      "The byte layout emitted by every Serialize (all success paths) and the layout consumed by the matching Deserialize case are extracted from the code of the current tree and compared: tag constants, field offsets, bool encodings vs. decodings, length-prefix position/width/endianness, payload range, length guards, coverage of every Message implementation and every struct field, tag uniqueness. Agreement of the two layouts is a proof-shaped argument for decode(encode(v)) == v over all field values and payloads at once, which sampling cannot give; it is claimed as 'other' because the extractor recognises a fixed set of emission/consumption idioms and trusts bytes.Buffer and encoding/binary.",
+      "Not decided: payloads of 4 GiB or more (uint32 length prefix), behaviour of bytes.Buffer/encoding/binary. An unrecognised writer or reader idiom is reported as undecided (fails), never silently accepted.",
+      "DESIGN.md §4 C19")
